@@ -374,6 +374,9 @@ def run_check(pid, tier, seed):
                 exit_code = 2
     if len(new) > 8:
         print('... and %d more distinct violating signatures' % (len(new) - 8))
+        if os.environ.get('VERIF_LIST_ALL'):
+            for e in new[8:]:
+                print('  more: %s | %s' % (json.dumps(e['sig'], sort_keys=True), str(e['msg'])[:200]))
     for he in total.harness_errors[:5]:
         print('HARNESS-ERROR: %s' % he)
     if total.harness_errors and exit_code == 0:
